@@ -118,6 +118,10 @@ class CParser:
         return Coord(file=self.clex.filename, line=lineno, column=column)
 
     def _parse_error(self, msg: str, coord: Coord | str | None) -> NoReturn:
+        if coord is None:
+            # Some nodes carry no coordinate; the message still has to name
+            # the file.
+            coord = self.clex.filename
         raise ParseError(f"{coord}: {msg}")
 
     def _push_scope(self) -> None:
